@@ -61,6 +61,30 @@ Ltac use_idx l i :=
   let x := fresh "x" in let H := fresh "Hx" in
   destruct (idx_ok _ l i) as [x H]; [try (unfold zlen in *; cbn [length] in *; lia) | rewrite H; cbn [res_bind]].
 
+Lemma index_byte_app_last : forall c pre d i, index_byte c (pre ++ [d]) = Some i -> d <> c -> (i < length pre)%nat.
+Proof.
+  induction pre as [|x pre IH]; intros d i H ND; cbn in H.
+  - destruct (N.eqb d c) eqn:E; [apply N.eqb_eq in E; congruence|discriminate].
+  - destruct (N.eqb x c); [inversion H; cbn; lia|].
+    destruct (index_byte c (pre ++ [d])) eqn:E; [|discriminate]. inversion H; subst. cbn. specialize (IH d n E ND). lia.
+Qed.
+
+Lemma cut_elem_subscript_total_pre : forall vn arg, cut_elem_subscript vn arg <> Panic.
+Proof.
+  intros vn arg; unfold cut_elem_subscript.
+  destruct (index_byte 91 arg) as [i0|] eqn:EI; [|discriminate].
+  destruct (rev arg) as [|d t] eqn:ER; [rewrite andb_false_r; discriminate|].
+  destruct (N.eqb d 93) eqn:ED; [|rewrite andb_false_r; discriminate].
+  destruct (0 <? Z.of_nat i0) eqn:E0; [|discriminate]. cbn [andb].
+  assert (EA : arg = rev t ++ [d]) by (rewrite <- (rev_involutive arg), ER; reflexivity).
+  apply N.eqb_eq in ED. subst d.
+  assert (LT : (i0 < length (rev t))%nat) by (apply (index_byte_app_last 91 (rev t) 93); [rewrite <- EA; exact EI|discriminate]).
+  assert (LA : zlen arg = Z.of_nat (length (rev t)) + 1) by (rewrite EA, zlen_app; unfold zlen; cbn [length]; lia).
+  rewrite slice_to_ok by lia. cbn [res_bind].
+  destruct (vn _); [|discriminate].
+  destruct (slice_ok _ arg (Z.of_nat i0 + 1) (zlen arg - 1)) as (r & ->); [lia|lia|]. discriminate.
+Qed.
+
 (* ------------------------------------------------------------ shift *)
 Section WithExt.
 Variable atoi : str -> Z * bool.
@@ -71,6 +95,8 @@ Variable str_of_runes : list N -> str.
 Variable index_rune : str -> N -> Z.
 Variable valid_name : str -> bool.
 Variable change_dir : str -> str -> option str.
+Variable format : str -> str.
+Variable eval_symlinks : str -> option str.
 
 (* inv only mentions og_arg, og_rune, dirstack *)
 Definition same_core (a b : state) : Prop :=
@@ -441,6 +467,86 @@ Lemma inv_set_in_func : forall st v, inv st -> inv (set_in_func st v).  Proof. u
 Lemma inv_set_vars : forall st v, inv st -> inv (set_vars st v).  Proof. unfold inv; cbn; auto. Qed.
 Lemma inv_set_bg : forall st v, inv st -> inv (set_bg st v).  Proof. unfold inv; cbn; auto. Qed.
 
+(* ------------------------------------------------------------ echo / pwd / unset *)
+Lemma echo_opts_ok : forall fuel args nl de, (length args < fuel)%nat ->
+  exists r, echo_opts fuel args nl de = Ok r.
+Proof.
+  induction fuel as [|fuel IH]; intros args nl de L; [lia|]. cbn [echo_opts].
+  destruct args as [|a r]; [cbn; eauto|].
+  rewrite zlen_cons. destruct (0 <? zlen r + 1) eqn:E; [|pose proof (zlen_nonneg _ r); lia].
+  rewrite idx_head; cbn [res_bind].
+  assert (SL : slice_from (a :: r) 1 = Ok r)
+    by (rewrite slice_from_ok by (rewrite zlen_cons; pose proof (zlen_nonneg _ r); lia); reflexivity).
+  cbn [length] in L.
+  destruct (str_eqb a (b "-n")); [rewrite SL; cbn [res_bind]; apply IH; lia|].
+  destruct (str_eqb a (b "-e")); [rewrite SL; cbn [res_bind]; apply IH; lia|].
+  destruct (str_eqb a (b "-E")); [rewrite SL; cbn [res_bind]; apply IH; lia|eauto].
+Qed.
+
+Lemma bi_echo_ok : forall args st, inv st -> okinv (bi_echo format args st).
+Proof.
+  intros args st I; unfold bi_echo.
+  destruct (echo_opts_ok (S (length args)) args true false) as ([[rest nl] de] & ->); [lia|].
+  cbn [res_bind]. apply ret_out_okinv; exact I.
+Qed.
+
+Lemma pwd_opts_ok : forall fuel args ev, (length args < fuel)%nat -> exists r, pwd_opts fuel args ev = Ok r.
+Proof.
+  induction fuel as [|fuel IH]; intros args ev L; [lia|]. cbn [pwd_opts].
+  destruct args as [|a r]; [cbn; eauto|].
+  rewrite zlen_cons. destruct (0 <? zlen r + 1) eqn:E; [|pose proof (zlen_nonneg _ r); lia].
+  rewrite idx_head; cbn [res_bind].
+  assert (SL : slice_from (a :: r) 1 = Ok r)
+    by (rewrite slice_from_ok by (rewrite zlen_cons; pose proof (zlen_nonneg _ r); lia); reflexivity).
+  cbn [length] in L.
+  destruct (str_eqb a (b "-L")); [rewrite SL; cbn [res_bind]; apply IH; lia|].
+  destruct (str_eqb a (b "-P")); [rewrite SL; cbn [res_bind]; apply IH; lia|eauto].
+Qed.
+
+Lemma bi_pwd_ok : forall args st, inv st -> okinv (bi_pwd eval_symlinks args st).
+Proof.
+  intros args st I; unfold bi_pwd.
+  destruct (pwd_opts_ok (S (length args)) args false) as (r & ->); [lia|]. cbn [res_bind].
+  destruct r as [ev|]; [|apply ret_okinv; exact I].
+  destruct ev; [|apply ret_out_okinv; exact I].
+  destruct (eval_symlinks _); [apply ret_out_okinv; exact I|eexists; split; [reflexivity|exact I]].
+Qed.
+
+Lemma unset_opts_ok : forall all l i v f, 0 <= i -> i + zlen l = zlen all -> exists r, unset_opts all l i v f = Ok r.
+Proof.
+  intros all l; induction l as [|a r IH]; intros i v f I0 L; cbn [unset_opts]; [eauto|].
+  rewrite zlen_cons in L. pose proof (zlen_nonneg _ r).
+  destruct (str_eqb a (b "-v")); [apply IH; lia|].
+  destruct (str_eqb a (b "-f")); [apply IH; lia|].
+  rewrite slice_from_ok by lia. cbn [res_bind]. eauto.
+Qed.
+
+Lemma unset_names_ok : forall l v st, inv st -> exists st', unset_names valid_name l v st = Ok st' /\ inv st'.
+Proof.
+  induction l as [|a r IH]; intros v st I; cbn [unset_names]; [eauto|].
+  pose proof (cut_elem_subscript_total_pre valid_name a) as NP.
+  destruct (cut_elem_subscript valid_name a) as [c|e|] eqn:EC; [| |congruence].
+  - cbn [res_bind]. destruct c as [[name sub]|].
+    + destruct v; [|apply IH; exact I].
+      destruct (var_get (vars st) name); [|apply IH; exact I].
+      destruct (str_eqb sub (b "0")); apply IH; [apply inv_set_vars|]; exact I.
+    + destruct v; apply IH; [apply inv_set_vars|]; exact I.
+  - exfalso. unfold cut_elem_subscript in EC.
+    destruct (index_byte 91 a); [|discriminate].
+    destruct ((0 <? Z.of_nat n) && match rev a with [] => false | c :: _ => N.eqb c 93 end); [|discriminate].
+    unfold slice_to, slice in EC.
+    destruct ((Z.of_nat n <? 0) || (zlen a <? Z.of_nat n)); [discriminate|]. cbn [res_bind] in EC.
+    destruct (valid_name _); [|discriminate].
+    destruct ((Z.of_nat n + 1 <? 0) || (zlen a - 1 <? Z.of_nat n + 1) || (zlen a <? zlen a - 1)); discriminate.
+Qed.
+
+Lemma bi_unset_ok : forall args st, inv st -> okinv (bi_unset valid_name args st).
+Proof.
+  intros args st I; unfold bi_unset.
+  destruct (unset_opts_ok args args 0 true true) as ([[rest v] f] & ->); [lia|lia|]. cbn [res_bind].
+  destruct (unset_names_ok rest v st I) as (st' & -> & I'). cbn [res_bind]. apply ret_okinv; exact I'.
+Qed.
+
 Lemma stmts_broken_ok : forall (exec : lstmt -> state -> res (state * list (list str))) old l,
   Forall (fun s => forall st, inv st -> okst (exec s st)) l ->
   forall st, inv st -> exists st' ev bk, stmts_broken exec old l st = Ok (st', ev, bk) /\ inv st'.
@@ -502,7 +608,7 @@ Proof.
 Qed.
 
 Lemma run_call_ok : forall c st, inv st ->
-  okcall (run_call atoi atoi64 itoa runes_of str_of_runes index_rune valid_name change_dir c st).
+  okcall (run_call atoi atoi64 itoa runes_of str_of_runes index_rune valid_name change_dir format eval_symlinks c st).
 Proof.
   intros c st I; destruct c; cbn [run_call].
   - apply fin_ok, bi_set_ok, I.
@@ -524,12 +630,16 @@ Proof.
     destruct (r_flow v); eexists _, _, _; (split; [reflexivity|apply inv_set_last, inv_set_in_func, IV]).
   - destruct (bi_exit_ok args st I) as (v & E & IV). rewrite E; cbn [res_bind].
     destruct (r_flow v); eexists _, _, _; (split; [reflexivity|]); try exact IV; apply inv_set_last, IV.
+  - apply fin_ok, bi_echo_ok, I.
+  - destruct (bi_pwd_ok args st I) as (v & E & IV). rewrite E; cbn [res_bind].
+    destruct (r_flow v); eexists _, _, _; (split; [reflexivity|]); try exact IV; apply inv_set_last, IV.
+  - apply fin_ok, bi_unset_ok, I.
 Qed.
 
 (* every history of calls from every state satisfying inv *)
 Lemma run_calls_ok : forall cs st, inv st ->
   exists st' ev code,
-    run_calls atoi atoi64 itoa runes_of str_of_runes index_rune valid_name change_dir cs st = Ok (st', ev, code) /\ inv st'.
+    run_calls atoi atoi64 itoa runes_of str_of_runes index_rune valid_name change_dir format eval_symlinks cs st = Ok (st', ev, code) /\ inv st'.
 Proof.
   induction cs as [|c cs IH]; intros st I; cbn [run_calls]; [eauto 10|].
   destruct (run_call_ok c st I) as (st1 & ev & ex & E & I1). rewrite E; cbn [res_bind].
@@ -555,29 +665,8 @@ Proof.
 Qed.
 
 (* ------------------------------------------------------------ unset 'a[i]' *)
-Lemma index_byte_app_last : forall c pre d i, index_byte c (pre ++ [d]) = Some i -> d <> c -> (i < length pre)%nat.
-Proof.
-  induction pre as [|x pre IH]; intros d i H ND; cbn in H.
-  - destruct (N.eqb d c) eqn:E; [apply N.eqb_eq in E; congruence|discriminate].
-  - destruct (N.eqb x c); [inversion H; cbn; lia|].
-    destruct (index_byte c (pre ++ [d])) eqn:E; [|discriminate]. inversion H; subst. cbn. specialize (IH d n E ND). lia.
-Qed.
-
 Lemma cut_elem_subscript_total : forall vn arg, cut_elem_subscript vn arg <> Panic.
-Proof.
-  intros vn arg; unfold cut_elem_subscript.
-  destruct (index_byte 91 arg) as [i0|] eqn:EI; [|discriminate].
-  destruct (rev arg) as [|d t] eqn:ER; [rewrite andb_false_r; discriminate|].
-  destruct (N.eqb d 93) eqn:ED; [|rewrite andb_false_r; discriminate].
-  destruct (0 <? Z.of_nat i0) eqn:E0; [|discriminate]. cbn [andb].
-  assert (EA : arg = rev t ++ [d]) by (rewrite <- (rev_involutive arg), ER; reflexivity).
-  apply N.eqb_eq in ED. subst d.
-  assert (LT : (i0 < length (rev t))%nat) by (apply (index_byte_app_last 91 (rev t) 93); [rewrite <- EA; exact EI|discriminate]).
-  assert (LA : zlen arg = Z.of_nat (length (rev t)) + 1) by (rewrite EA, zlen_app; unfold zlen; cbn [length]; lia).
-  rewrite slice_to_ok by lia. cbn [res_bind].
-  destruct (vn _); [|discriminate].
-  destruct (slice_ok _ arg (Z.of_nat i0 + 1) (zlen arg - 1)) as (r & ->); [lia|lia|]. discriminate.
-Qed.
+Proof. exact cut_elem_subscript_total_pre. Qed.
 
 Lemma lower_bound_range : forall l k, 0 <= lower_bound l k <= zlen l.
 Proof.
@@ -684,7 +773,7 @@ Proof. vm_compute. eexists; split; reflexivity. Qed.
 Ltac dummies :=
   first [ exact (fun _ : str => (0, false)) | exact (fun _ : str => 0) | exact (fun _ : Z => @nil N)
         | exact (fun _ : str => @nil N) | exact (fun _ : list N => @nil N) | exact (fun (_ : str) (_ : N) => 0)
-        | exact (fun _ : str => false) | exact (fun (_ _ : str) => @None str) ].
+        | exact (fun _ : str => false) | exact (fun (_ _ : str) => @None str) | exact (fun _ : str => @None str) ].
 Ltac via L := apply okinv_not_panic; unshelve eapply L; try assumption; dummies.
 
 Lemma shift_prefix_refuted_ex : exists args st, inv st /\ bi_shift_prefix atoi_c args st = Panic.
@@ -728,6 +817,13 @@ Proof. intros cd args st I. via bi_popd_ok. Qed.
 Lemma dirs_total : forall args st, inv st -> bi_dirs args st <> Panic.
 Proof. intros args st I. apply okinv_not_panic. apply bi_dirs_ok; assumption. Qed.
 
+Lemma echo_total : forall format args st, inv st -> bi_echo format args st <> Panic.
+Proof. intros fm args st I. via bi_echo_ok. Qed.
+Lemma pwd_total : forall eval_symlinks args st, inv st -> bi_pwd eval_symlinks args st <> Panic.
+Proof. intros es args st I. via bi_pwd_ok. Qed.
+Lemma unset_total : forall valid_name args st, inv st -> bi_unset valid_name args st <> Panic.
+Proof. intros vn args st I. via bi_unset_ok. Qed.
+
 (* without the invariant pushd -n DIR does panic: the invariant is needed, not decoration *)
 Lemma pushd_needs_inv : exists change_dir args st, bi_pushd change_dir args st = Panic.
 Proof.
@@ -736,9 +832,9 @@ Proof.
 Qed.
 
 Lemma history_total :
-  forall atoi atoi64 itoa runes_of str_of_runes index_rune valid_name change_dir cs st, inv st ->
+  forall atoi atoi64 itoa runes_of str_of_runes index_rune valid_name change_dir format eval_symlinks cs st, inv st ->
   exists st' ev code,
-    run_calls atoi atoi64 itoa runes_of str_of_runes index_rune valid_name change_dir cs st = Ok (st', ev, code)
+    run_calls atoi atoi64 itoa runes_of str_of_runes index_rune valid_name change_dir format eval_symlinks cs st = Ok (st', ev, code)
     /\ inv st'.
 Proof. intros. apply run_calls_ok; assumption. Qed.
 
